@@ -403,3 +403,251 @@ MUTANTS = [
     # ---- vanished anchor ---------------------------------------------------
     M("vanish-check-for-done", SM, "    def _check_for_done(self, res):", "    def _check_for_doneX(self, res):", "ANALYSIS-ERROR"),
 ]
+
+
+# ---- seeded C11-I: the ServerMap queries (and the MODE_READ completion test) refactored onto one shared per-version
+# table _version_health(); best_recoverable_version() = max(.., default=None), highest_seqnum() = max(.., default=0),
+# _check_for_done asks unrecoverable_newer_versions().  The edits are the hunks of the seeded patch on the current source.
+_HEALTH_EDITS = [('\n'
+  '    def shares_available(self):\n'
+  '        """Return a dict that maps verinfo to tuples of\n'
+  '        (num_distinct_shares, k, N) tuples."""\n'
+  '        versionmap = self.make_versionmap()\n'
+  '        all_shares = {}\n'
+  '        for verinfo, shares in list(versionmap.items()):\n'
+  '            s = set()\n'
+  '            for (shnum, server, timestamp) in shares:\n'
+  '                s.add(shnum)\n'
+  '            (seqnum, root_hash, IV, segsize, datalength, k, N, prefix,\n'
+  '             offsets_tuple) = verinfo\n'
+  '            all_shares[verinfo] = (len(s), k, N)\n'
+  '        return all_shares\n'
+  '\n'
+  '    def highest_seqnum(self):\n'
+  '        available = self.shares_available()\n'
+  '        seqnums = [verinfo[0]\n'
+  '                   for verinfo in available.keys()]\n'
+  '        seqnums.append(0)\n'
+  '        return max(seqnums)\n'
+  '\n',
+  '\n'
+  '    def _version_health(self):\n'
+  '        """Return a dict that maps verinfo to a (num_distinct_shares, k, N)\n'
+  '        tuple. All of the recoverable/unrecoverable questions below are\n'
+  '        answered from this one table."""\n'
+  '        health = {}\n'
+  '        for (verinfo, shares) in self.make_versionmap().items():\n'
+  '            (seqnum, root_hash, IV, segsize, datalength, k, N, prefix,\n'
+  '             offsets_tuple) = verinfo\n'
+  '            health[verinfo] = (len(shares), k, N)\n'
+  '        return health\n'
+  '\n'
+  '    def shares_available(self):\n'
+  '        """Return a dict that maps verinfo to tuples of\n'
+  '        (num_distinct_shares, k, N) tuples."""\n'
+  '        return self._version_health()\n'
+  '\n'
+  '    def highest_seqnum(self):\n'
+  '        return max([verinfo[0] for verinfo in self._version_health()],\n'
+  '                   default=0)\n'
+  '\n'),
+ ('        recoverable."""\n'
+  '        versionmap = self.make_versionmap()\n'
+  '        recoverable_versions = set()\n'
+  '        for (verinfo, shares) in list(versionmap.items()):\n'
+  '            (seqnum, root_hash, IV, segsize, datalength, k, N, prefix,\n'
+  '             offsets_tuple) = verinfo\n'
+  '            shnums = set([shnum for (shnum, server, timestamp) in shares])\n'
+  '            if len(shnums) >= k:\n'
+  '                # this one is recoverable\n'
+  '                recoverable_versions.add(verinfo)\n'
+  '\n'
+  '        return recoverable_versions\n'
+  '\n'
+  '    def unrecoverable_versions(self):\n'
+  '        """Return a set of versionids, one for each version that is currently\n'
+  '        unrecoverable."""\n'
+  '        versionmap = self.make_versionmap()\n'
+  '\n'
+  '        unrecoverable_versions = set()\n'
+  '        for (verinfo, shares) in list(versionmap.items()):\n'
+  '            (seqnum, root_hash, IV, segsize, datalength, k, N, prefix,\n'
+  '             offsets_tuple) = verinfo\n'
+  '            shnums = set([shnum for (shnum, server, timestamp) in shares])\n'
+  '            if len(shnums) < k:\n'
+  '                unrecoverable_versions.add(verinfo)\n'
+  '\n'
+  '        return unrecoverable_versions\n'
+  '\n'
+  '    def best_recoverable_version(self):\n'
+  '        """Return a single versionid, for the so-called \'best\' recoverable\n'
+  '        version. Sequence number is the primary sort criteria, followed by\n'
+  '        root hash. Returns None if there are no recoverable versions."""\n'
+  '        recoverable = list(self.recoverable_versions())\n'
+  '        recoverable.sort()\n'
+  '        if recoverable:\n'
+  '            return recoverable[-1]\n'
+  '        return None\n'
+  '\n',
+  '        recoverable."""\n'
+  '        return set(verinfo\n'
+  '                   for (verinfo, (found, k, N))\n'
+  '                   in self._version_health().items()\n'
+  '                   if found >= k)\n'
+  '\n'
+  '    def unrecoverable_versions(self):\n'
+  '        """Return a set of versionids, one for each version that is currently\n'
+  '        unrecoverable."""\n'
+  '        return set(verinfo\n'
+  '                   for (verinfo, (found, k, N))\n'
+  '                   in self._version_health().items()\n'
+  '                   if found < k)\n'
+  '\n'
+  '    def best_recoverable_version(self):\n'
+  '        """Return a single versionid, for the so-called \'best\' recoverable\n'
+  '        version. Sequence number is the primary sort criteria, followed by\n'
+  '        root hash. Returns None if there are no recoverable versions."""\n'
+  '        return max(self.recoverable_versions(), default=None)\n'
+  '\n'),
+ ('        # These indicate that a write will lose data.\n'
+  '        versionmap = self.make_versionmap()\n'
+  '        healths = {} # maps verinfo to (found,k)\n'
+  '        unrecoverable = set()\n'
+  '        highest_recoverable_seqnum = -1\n'
+  '        for (verinfo, shares) in list(versionmap.items()):\n'
+  '            (seqnum, root_hash, IV, segsize, datalength, k, N, prefix,\n'
+  '             offsets_tuple) = verinfo\n'
+  '            shnums = set([shnum for (shnum, server, timestamp) in shares])\n'
+  '            healths[verinfo] = (len(shnums),k)\n'
+  '            if len(shnums) < k:\n'
+  '                unrecoverable.add(verinfo)\n'
+  '            else:\n'
+  '                highest_recoverable_seqnum = max(seqnum,\n'
+  '                                                 highest_recoverable_seqnum)\n'
+  '\n'
+  '        newversions = {}\n'
+  '        for verinfo in unrecoverable:\n'
+  '            (seqnum, root_hash, IV, segsize, datalength, k, N, prefix,\n'
+  '             offsets_tuple) = verinfo\n'
+  '            if seqnum > highest_recoverable_seqnum:\n'
+  '                newversions[verinfo] = healths[verinfo]\n'
+  '\n'
+  '        return newversions\n'
+  '\n',
+  '        # These indicate that a write will lose data.\n'
+  '        health = self._version_health()\n'
+  '        highest_recoverable_seqnum = max(\n'
+  '            [verinfo[0]\n'
+  '             for (verinfo, (found, k, N)) in health.items()\n'
+  '             if found >= k],\n'
+  '            default=-1)\n'
+  '        return dict((verinfo, (found, k))\n'
+  '                    for (verinfo, (found, k, N)) in health.items()\n'
+  '                    if found < k and verinfo[0] > highest_recoverable_seqnum)\n'
+  '\n'),
+ ('                               for verinfo in self.recoverable_versions()]\n'
+  '        for seqnum in recoverable_seqnums:\n'
+  '            if recoverable_seqnums.count(seqnum) > 1:\n'
+  '                return True\n'
+  '        return False\n'
+  '\n',
+  '                               for verinfo in self.recoverable_versions()]\n'
+  '        return len(set(recoverable_seqnums)) < len(recoverable_seqnums)\n'
+  '\n'),
+ ('        recoverable_versions = self._servermap.recoverable_versions()\n'
+  '        unrecoverable_versions = self._servermap.unrecoverable_versions()\n'
+  '\n',
+  '        recoverable_versions = self._servermap.recoverable_versions()\n\n'),
+ ('                return self._send_more_queries(MAX_IN_FLIGHT)\n'
+  '            highest_recoverable = max(recoverable_versions)\n'
+  '            highest_recoverable_seqnum = highest_recoverable[0]\n'
+  '            for unrec_verinfo in unrecoverable_versions:\n'
+  '                if unrec_verinfo[0] > highest_recoverable_seqnum:\n'
+  '                    # there is evidence of a higher-seqnum version, but we\n'
+  "                    # don't yet see enough shares to recover it. Try harder.\n"
+  '                    # TODO: consider sending more queries.\n'
+  '                    # TODO: consider limiting the search distance\n'
+  '                    self.log("evidence of higher seqnum: need more",\n'
+  '                             level=log.UNUSUAL, parent=lp)\n'
+  '                    return self._send_more_queries(MAX_IN_FLIGHT)\n'
+  '            # all the unrecoverable versions were old or concurrent with a\n',
+  '                return self._send_more_queries(MAX_IN_FLIGHT)\n'
+  '            if self._servermap.unrecoverable_newer_versions():\n'
+  '                # there is evidence of a higher-seqnum version, but we\n'
+  "                # don't yet see enough shares to recover it. Try harder.\n"
+  '                # TODO: consider sending more queries.\n'
+  '                # TODO: consider limiting the search distance\n'
+  '                self.log("evidence of higher seqnum: need more",\n'
+  '                         level=log.UNUSUAL, parent=lp)\n'
+  '                return self._send_more_queries(MAX_IN_FLIGHT)\n'
+  '            # all the unrecoverable versions were old or concurrent with a\n')]
+
+_SLIP_COUNT = "            health[verinfo] = (len(shares), k, N)\n"
+_FAITHFUL_COUNT = ("            shnums = set([shnum for (shnum, server, timestamp) in shares])\n"
+                   "            health[verinfo] = (len(shnums), k, N)\n")
+
+
+def _health_refactor(mid, expect, count=_FAITHFUL_COUNT, swaps=()):
+    """The C11-I refactor with the per-version count written as `count` (the seeded slip sits there) and the further
+    (old, new) text replacements `swaps` made in the refactored code."""
+    edits = []
+    for (old, new) in _HEALTH_EDITS:
+        assert new.count(_SLIP_COUNT) <= 1
+        new = new.replace(_SLIP_COUNT, count)
+        for (a, b) in swaps:
+            new = new.replace(a, b)
+        edits.append((SM, old, new))
+    for (a, b) in swaps:
+        assert any(b in e[2] for e in edits), (mid, a)
+    return M(mid, SM, edits[0][1], edits[0][2], expect, edits=edits[1:])
+
+
+MUTANTS += [
+    # the refactor done faithfully: distinct share numbers per version
+    _health_refactor("version-health-refactor-faithful", None),
+    _health_refactor("version-health-refactor-faithful-set-filled-by-loop", None,
+                     count="            shnums = set()\n            for (shnum, server, timestamp) in shares:\n"
+                           "                shnums.add(shnum)\n            health[verinfo] = (len(shnums), k, N)\n"),
+    # the seeded slip: the table counts (shnum, server, timestamp) placements
+    _health_refactor("version-health-refactor-counts-placements", "C11.2", count=_SLIP_COUNT),
+    _health_refactor("version-health-refactor-counts-list-of-shnums", "C11.2",
+                     count="            shnums = [shnum for (shnum, server, timestamp) in shares]\n"
+                           "            health[verinfo] = (len(shnums), k, N)\n"),
+    # other slips of the same translation
+    _health_refactor("version-health-refactor-best-is-min", "C11.2",
+                     swaps=[("return max(self.recoverable_versions(), default=None)",
+                             "return min(self.recoverable_versions(), default=None)")]),
+    _health_refactor("version-health-refactor-recoverable-gt-k", "C11.2",
+                     swaps=[("                   in self._version_health().items()\n                   if found >= k)",
+                             "                   in self._version_health().items()\n                   if found > k)")]),
+    _health_refactor("version-health-refactor-highest-seqnum-of-recoverable", "C11.1",
+                     swaps=[("return max([verinfo[0] for verinfo in self._version_health()],",
+                             "return max([verinfo[0] for verinfo in self.recoverable_versions()],")]),
+    _health_refactor("version-health-refactor-newer-bound-over-all-versions", "C11.3",
+                     swaps=[("             for (verinfo, (found, k, N)) in health.items()\n             if found >= k],\n",
+                             "             for (verinfo, (found, k, N)) in health.items()],\n")]),
+    # fail closed: a bound the evaluation does not follow
+    _health_refactor("version-health-refactor-newer-only-two-ahead", "ANALYSIS-ERROR",
+                     swaps=[("if found < k and verinfo[0] > highest_recoverable_seqnum)",
+                             "if found < k and verinfo[0] > highest_recoverable_seqnum + 1)")]),
+    _health_refactor("version-health-refactor-done-when-newer-seen", "C11.3",
+                     swaps=[("            if self._servermap.unrecoverable_newer_versions():\n",
+                             "            if not self._servermap.unrecoverable_newer_versions():\n")]),
+]
+
+
+# ---- seeded C14-I in its faithful form: the queries derived from shares_available(), which counts the share numbers a
+# helper _shnums_by_version() collected per version (the variants are those of selftest/C14.py, read for this property)
+from .C14 import _refactor as _shnums_refactor      # noqa: E402
+
+MUTANTS += [
+    _shnums_refactor("shnums-by-version-refactor-faithful", None),
+    _shnums_refactor("shnums-by-version-refactor-faithful-defaultdict", None,
+                     helper="    def _shnums_by_version(self):\n        shnums = defaultdict(set)\n"
+                            "        for ( (server, shnum), (verinfo, timestamp) ) in self._known_shares.items():\n"
+                            "            shnums[verinfo].add(shnum)\n        return shnums\n\n"),
+    _shnums_refactor("shnums-by-version-refactor-shnums-in-list", "C11.2", fill="shnums.setdefault(verinfo, []).append(shnum)"),
+    _shnums_refactor("shnums-by-version-refactor-recoverable-gt-k", "C11.2", rec_op=">"),
+    _shnums_refactor("shnums-by-version-refactor-helper-not-followed", "ANALYSIS-ERROR",
+                     fill="if shnum not in shnums.setdefault(verinfo, []):\n                shnums[verinfo].append(shnum)"),
+]
